@@ -199,7 +199,7 @@ class _NPathSegment:
     quoted: bool
 
 
-_NPATH_IDENTIFIER_RE = re.compile(r"^[A-Za-z_][A-Za-z0-9_']*$")
+_NPATH_IDENTIFIER_RE = re.compile(r"^[A-Za-z_][A-Za-z0-9_']*\Z")
 
 
 def _parse_npath(npath: str) -> list[_NPathSegment]:
